@@ -28,7 +28,7 @@ def replay_file(path):
     data = json.load(open(path))
     kind = data.get("kind")
     if kind == "harness":
-        r = fw.native_run_harness([{"harness": data["harness"], "params": data["params"]}])[0]
+        r = fw.native_run_harness([{"harness": data["harness"], "params": data["params"], "overrides": data.get("overrides")}])[0]
         print(json.dumps(r))
         fails = r["outcome"] in ("violation", "exception")
     elif kind == "native":
@@ -159,7 +159,7 @@ def run(prop, tier, seed, args):
         items = []
         for r, ob in pending_replays:
             if "params" in ob:
-                items.append({"harness": r["harness"], "params": ob["params"]})
+                items.append({"harness": r["harness"], "params": ob["params"], "overrides": r.get("overrides") or getattr(mod, "NATIVE_OVERRIDES", {})})
         native = fw.native_run_harness(items) if items else []
         it = iter(native)
         for r, ob in pending_replays:
@@ -167,6 +167,7 @@ def run(prop, tier, seed, args):
             fd = fw.match_finding(findings, ob["ident"])
             reproduced = nat["outcome"] in ("violation", "exception")
             data = {"kind": "harness", "obligation": ob["ident"], "harness": r["harness"], "case": r["case"], "params": ob.get("params"),
+                    "overrides": r.get("overrides") or getattr(mod, "NATIVE_OVERRIDES", {}),
                     "model": ob.get("model"), "observed": nat, "solver": f"{ob['backend']}: sat (counter-model above); note={ob['note']}"}
             if fd is not None and fw_region_ok(fd, ob):
                 known_hit.setdefault(fd["what"], []).append(ob["ident"])
